@@ -303,6 +303,7 @@ func (c *SConn) readLoop() {
 	flush := func() {
 		e := peer.Event{Kind: "headers", Stream: blockStream, EndStream: blockEnd, Frames: blockFrames, Length: blockMax}
 		c.mu.Lock()
+		e.Limit = c.MaxFrame
 		fields, err := c.Dec.DecodeBlock(block)
 		e.SizeUpd = append([]uint32(nil), c.Dec.SawUpdates...)
 		if _, ok := c.StreamWin[blockStream]; !ok {
